@@ -1,6 +1,8 @@
 package simple
 
 import (
+	"github.com/goose-lang/primitive/disk"
+
 	"github.com/mit-pdos/go-journal/common"
 	"github.com/mit-pdos/go-journal/jrnl"
 	"github.com/mit-pdos/go-journal/util"
@@ -98,6 +100,11 @@ func NFSPROC3_SETATTR_wp(args nfstypes.SETATTR3args, reply *nfstypes.SETATTR3res
 	if args.New_attributes.Size.Set_it {
 		newsize := uint64(args.New_attributes.Size.Size)
 		if ip.Size < newsize {
+			if newsize > disk.BlockSize {
+				// files hold at most one block; do not even allocate the fill data
+				reply.Status = nfstypes.NFS3ERR_NOSPC
+				return false
+			}
 			data := make([]byte, newsize-ip.Size)
 			ip.Write(op, ip.Size, newsize-ip.Size, data)
 			if ip.Size != newsize {
